@@ -49,6 +49,7 @@ BoolOps == {"or", "and"}
 ZipOps  == {"zip", "sequence", "traverse"}
 
 ObsInit == [op |-> "", n |-> 0, pos |-> <<>>, k |-> 0,
+            nested |-> FALSE,      \* op(op(some inputs), other inputs): two combinators, judged as one fold
             ccall |-> 0, cret |-> 0,
             tent |-> <<>>,         \* f -> <<index of InputSetCall, kind, id, 1>> while the call has not returned
             call |-> <<>>,         \* f -> index of the InputSetCall that completed f
@@ -66,7 +67,7 @@ InCall(st, f) == Has(st.tent, f) /\ st.tent[f][4] = 1
 ObsNext(st0, e) ==
   LET st == [st0 EXCEPT !.k = @ + 1]
       i  == st0.k + 1
-  IN CASE e.ev = "Cfg" -> [st EXCEPT !.op = e.s, !.n = e.a, !.pos = e.xs]
+  IN CASE e.ev = "Cfg" -> [st EXCEPT !.op = e.s, !.n = e.a, !.pos = e.xs, !.nested = (e.b = 1)]
        [] e.ev = "CombCall" -> [st EXCEPT !.ccall = i]
        [] e.ev = "CombRet" -> [st EXCEPT !.cret = i]
        [] e.ev = "InputSetCall" -> [st EXCEPT !.tent = PutE(@, e.f, <<i, e.a, e.b, 1>>)]
@@ -143,7 +144,15 @@ Waived(st) == st.ucall /\ ~st.ufail /\ ObservedOutcome(st) = <<"cancelled", 0>>
 
 \* inputs whose own completion had not even begun when the deciding call returned
 PendingAt(st, d) == {j \in Inputs(st) \ {d} : j \notin Completed(st) \/ CallOf(st, j) > ERet(st, d)}
-LosersCancelledBy(st, d) == \A j \in PendingAt(st, d) : Has(st.carr, j) /\ st.carr[j] < ERet(st, d)
+\* ... got their cancel() request within the deciding call.  With two nested combinators the inner one may have been
+\* decided by another completion k that overlaps the outer decider's (the outer's cancel() of the inner output is then
+\* refused, rightly): the inner losers get their request within k's call - "as soon as the [inner] output is decided"
+LosersCancelledBy(st, d) ==
+  \A j \in PendingAt(st, d) :
+     /\ Has(st.carr, j)
+     /\ \/ st.carr[j] < ERet(st, d)
+        \/ /\ st.nested
+           /\ \E k \in (Completed(st) \cap Inputs(st)) \ {d, j} : CallOf(st, k) < ERet(st, d) /\ st.carr[j] < ERet(st, k)
 
 \* every input still pending when the output was cancelled got a cancel() request: an input whose own completion only
 \* began after the client's cancel() of the output had returned True must have received one (completing later by
